@@ -135,6 +135,7 @@ def run(case: dict, ctx) -> dict:
             n = rng.randrange(900, 1500)
             base = "disk with a fairly long base name so that every extent line takes its share of the descriptor"
         lines, parts, files, kinds, caps = [], [], [], [], []
+        zero_extents = 0
         for j in range(n):
             kind = rng.choice(["FLAT", "VMFS", "SPARSE", "VMFSSPARSE", "SESPARSE", "SESPARSE"])
             if long_mode == "many":
@@ -158,13 +159,23 @@ def run(case: dict, ctx) -> dict:
             files.append(fn)
             kinds.append(kind)
             caps.append(cap)
+            if long_mode is None and j + 1 < n and rng.random() < 0.06:
+                # an extent of zero sectors between two others (an empty slice left by a tool): it contributes nothing, the
+                # extents behind it follow at once. (A reader may refuse such a descriptor; it must not serve less than the disk.)
+                (d / f"{base}-empty{j}.vmdk").write_bytes(b"")
+                lines.append(f'RW 0 FLAT "{base}-empty{j}.vmdk" 0')
+                parts.append(Model(0, []))
+                files.append(f"{base}-empty{j}.vmdk")
+                kinds.append("FLAT")
+                caps.append(0)
+                zero_extents += 1
         notes = {f"vf.annotation{q}": "x" * 190 for q in range(400)} if long_mode == "notes" else None
         text = w.descriptor_text(lines, crlf=rng.random() < 0.3, comments=rng.random() < 0.8, spacing=rng.choice(["", " "]), extra=notes,
                                  create_type=rng.choice(["twoGbMaxExtentSparse", "vmfs", "seSparse", "monolithicFlat"]))
         dpath = d / f"{base}.vmdk"
         dpath.write_text(text, encoding="utf-8", newline="")
         model = ConcatModel(parts)
-        path_mode = rng.choice(["path", "str", "fh", "list"] if long_mode != "many" else ["path", "str", "fh"])
+        path_mode = rng.choice(["path", "str", "fh", "list"] if long_mode != "many" and not zero_extents else ["path", "str", "fh"])
         handles = []
         if path_mode == "path":
             o = call(VMDK, dpath)
@@ -184,12 +195,19 @@ def run(case: dict, ctx) -> dict:
             plain_list_ok = plain_list_ok and not any(getattr(p_.layers[0], "looks_sparse", False) for p_ in parts)
             o = call(VMDK, fhs if plain_list_ok else dpath)
         try:
+            cnt["descriptors_with_a_zero_sector_extent"] = int(zero_extents > 0)
+            if not o.ok and zero_extents:
+                cnt["zero_sector_extent_refusals"] = 1
+                res["nontrivial"] = True
+                res["sig"] = ("zero-extent-refused", case["i"])
+                res["sample"] = {"descriptor_lines": lines[:4], "outcome": o.brief()}
+                return res
             if not o.ok:
                 res["viol"].append({"what": f"open failed on a well-formed descriptor: {o.brief()}", "mech": MECH,
                                     "detail": {"tb": o.tb, "descriptor": text[:600]}})
                 return res
             v = o.value
-            if len(v.disks) != n:
+            if len(v.disks) != n + zero_extents and not zero_extents:
                 res["viol"].append({"what": "an extent named in the descriptor is missing from the assembled disk", "mech": MECH,
                                     "detail": {"extents_opened": len(v.disks), "extents_named": n, "lines": lines}})
             exp_size = sum(caps) * SECTOR
@@ -313,7 +331,10 @@ def run(case: dict, ctx) -> dict:
     rng.shuffle(order)
     whds.write_hdd_dir(str(hd), order, [(g, whds.NULL_GUID)], files=files)
     model = ConcatModel(parts)
-    o = call(lambda: HDD(hd).open())
+    # the bundle directory, or (the documented alternative) a file inside it
+    entry = rng.choice([hd, hd, hd / "DiskDescriptor.xml", str(hd / "DiskDescriptor.xml")])
+    res["sets"]["hdd_entry_points"] = ["directory" if entry is hd else "file-inside-bundle"]
+    o = call(lambda: HDD(Path(entry)).open())
     if not o.ok:
         res["viol"].append({"what": f"open failed on a well-formed .hdd: {o.brief()}", "mech": MECH, "detail": {"tb": o.tb}})
         return res
